@@ -144,6 +144,83 @@ fn run_case<T: Elem>(case: u64, args: &Args, ev: &mut Ev, log: &mut EventLog) {
     });
 }
 
+/// The periodic images while several threads share the interpolator: each thread keeps
+/// repeating its own far-away query (so that anything remembered between calls gets hit) and
+/// now and then asks the others' queries; every answer must equal, bit for bit, what a fresh
+/// single-threaded interpolator answers.
+fn shared_periodic(ev: &mut Ev, seed: u64, iters: usize) {
+    use vh::ndarray_interp::interp1d::cubic_spline::{BoundaryCondition, CubicSpline};
+    use vh::ndarray_interp::interp1d::Interp1D;
+    let mut rng = Rng::derive(seed, "C07-shared-periodic", &[0]);
+    for round in 0..3u64 {
+        let n = 5 + rng.below(12);
+        let mut pos = rng.irange(-8, 8) as f64 * 0.5;
+        let x: Array1<f64> = (0..n)
+            .map(|_| {
+                let v = pos;
+                pos += 0.125 * (1 + rng.below(12)) as f64;
+                v
+            })
+            .collect();
+        let mut data: Vec<f64> = (0..n).map(|_| rng.f01() * 10.0 - 5.0).collect();
+        data[n - 1] = data[0];
+        let p = x[n - 1] - x[0];
+        let mk = || Interp1D::builder(Array1::from(data.clone())).x(x.clone()).strategy(CubicSpline::new().extrapolate(true).boundary(BoundaryCondition::Periodic)).build().unwrap();
+        let pool: Vec<f64> = (0..16)
+            .map(|k| {
+                let base = x[0] + rng.f01() * p;
+                let periods = *rng.pick(&[1.0, -1.0, 2.0, -3.0, 10.0, -17.0, 1000.0, -1.0e6]);
+                if k % 4 == 3 { base } else { base + periods * p }
+            })
+            .collect();
+        let reference: Vec<u64> = {
+            let fresh = mk();
+            pool.iter().map(|&q| fresh.interp_scalar(q).unwrap().to_bits()).collect()
+        };
+        let shared = mk();
+        let threads = 8;
+        let barrier = std::sync::Barrier::new(threads);
+        let seeds: Vec<u64> = (0..threads).map(|_| rng.next_u64()).collect();
+        let bad: Vec<Option<(usize, f64)>> = std::thread::scope(|s| {
+            let hs: Vec<_> = seeds
+                .iter()
+                .enumerate()
+                .map(|(t, &sd)| {
+                    let (pool, reference, barrier, shared) = (&pool, &reference, &barrier, &shared);
+                    s.spawn(move || {
+                        let mut r = Rng::new(sd);
+                        barrier.wait();
+                        for _ in 0..iters {
+                            let k = if r.chance(0.7) { (t * 2) % pool.len() } else { r.below(pool.len()) };
+                            let got = shared.interp_scalar(pool[k]).unwrap();
+                            if got.to_bits() != reference[k] {
+                                return Some((k, got));
+                            }
+                        }
+                        None
+                    })
+                })
+                .collect();
+            hs.into_iter().map(|h| h.join().expect("thread panicked")).collect()
+        });
+        ev.add("shared_periodic_queries", (threads * iters) as u64);
+        if let Some((k, got)) = bad.into_iter().flatten().next() {
+            ev.violation(
+                "C07:depends-on-concurrent-callers",
+                &format!(
+                    "periodic spline on {:?} shared by {threads} threads: S({:?}) = {got:?}, but {:?} on a fresh single-threaded interpolator",
+                    x.to_vec(),
+                    pool[k],
+                    f64::from_bits(reference[k])
+                ),
+                9_960_000 + round,
+                J::obj().set("phase", "shared-periodic"),
+            );
+            return;
+        }
+    }
+}
+
 fn main() {
     let args = Args::parse("C07");
     let n = args.budget(600, 60000);
@@ -154,6 +231,10 @@ fn main() {
             run_case::<f64>(case, &args, ev, log)
         }
     });
+    let mut ev = ev;
+    if args.blocks() && !cfg!(miri) {
+        shared_periodic(&mut ev, args.seed, if args.thorough() { 1_000_000 } else { 150_000 });
+    }
     ev.finish(
         &args,
         "periodic data sets (n = 3, 4 and up to 30; uniform and non-uniform axes; first axis value of \
